@@ -13,6 +13,11 @@ import XmppModel.Model.Muc
       D<c>ok | D<c>se | D<c>ce   Leave returned
       I mediated invitation   N unrelated stanza   ?<bits> Joined() of every channel
       =<a0>.<a1>… Me() of every channel (emitted when it changed)
+      %c | %s | %a  (first token, optional) stanza namespace of the session: jabber:client (default),
+        jabber:server, jabber:component:accept
+      Ej<c>:<shape> / El<c>:<shape>  the error reply with the given children (harness/c18/reply.go):
+        x echoed muc x, w white space, p echoed <priority/>, s echoed <status/>, then the error element
+        (e b n a m t g: forms of the error; its namespace is the session's)
     answer: `joined=<bits> upres=<n> inv=<n>` or `bad@n:tok`
 -/
 namespace XmppModel.Driver.C18
@@ -59,7 +64,32 @@ def presAddr (r : List Char) : Option Nat :=
   | [as, p] => if payloadOk p.toList then as.toNat? else none
   | _ => none
 
-def applyTok (n : Nat) (s : St) (tok : String) : Option St :=
+def cfgNs (tok : String) : Option String :=
+  if tok = "%c" then some nsClient else if tok = "%s" then some nsServer
+  else if tok = "%a" then some nsAccept else none
+
+/-- children of an error reply of the given shape on a stream whose stanza namespace is `ns` -/
+def shapeChild (ns : String) (c : Char) : Option RChild :=
+  if c = 'x' then some (.elem nsMuc "x") else if c = 'w' then some .text
+  else if c = 'p' then some (.elem ns "priority") else if c = 's' then some (.elem ns "status")
+  else if c = 'e' ∨ c = 'b' ∨ c = 'n' ∨ c = 'a' ∨ c = 'm' ∨ c = 't' ∨ c = 'g' then some (.elem ns "error")
+  else none
+
+/-- the reply is one the model's `joinError` / `leaveError` stand for iff the scan finds the error
+element, which is the last child of the shape -/
+def replyOk (ns : String) (shape : List Char) : Bool :=
+  match mapM? (shapeChild ns) shape with
+  | some cs => cs.length > 0 && findError cs == some (cs.length - 1)
+  | none => false
+
+/-- `<c>` or `<c>:<shape>` -/
+def replyChan (ns : String) (r : List Char) : Option (List Char) :=
+  match (String.ofList r).splitOn ":" with
+  | [cs] => some cs.toList
+  | [cs, sh] => if replyOk ns sh.toList then some cs.toList else none
+  | _ => none
+
+def applyTok (ns : String) (n : Nat) (s : St) (tok : String) : Option St :=
   let idx (r : List Char) : Option Nat := do let c ← numOf r; if c < n then some c else none
   match tok.toList with
   | 'J' :: r =>
@@ -71,9 +101,9 @@ def applyTok (n : Nat) (s : St) (tok : String) : Option St :=
   | 's' :: r => do let _ ← idx r; some s   -- entering the select is not a model step
   | 'A' :: r => do let a ← presAddr r; step s (.avail a)
   | 'U' :: r => do let a ← presAddr r; step s (.unavail a)
-  | 'E' :: 'j' :: r => do let c ← idx r; step s (.joinError c)
+  | 'E' :: 'j' :: r => do let c ← (replyChan ns r).bind idx; step s (.joinError c)
   | 'X' :: 'j' :: r => do let c ← idx r; step s (.joinCancel c)
-  | 'E' :: 'l' :: r => do let c ← idx r; chk (s.lpc c == .waiting) s
+  | 'E' :: 'l' :: r => do let c ← (replyChan ns r).bind idx; chk (s.lpc c == .waiting) s
   | 'X' :: 'l' :: r => do let c ← idx r; chk (s.lpc c == .waiting) s
   | 'R' :: r =>
     let str := String.ofList r
@@ -118,10 +148,10 @@ def applyTok (n : Nat) (s : St) (tok : String) : Option St :=
     chk (l == (List.range n).map s.cur) s
   | _ => none
 
-def replay (n : Nat) : List String → Nat → St → Except String St
+def replay (ns : String) (n : Nat) : List String → Nat → St → Except String St
   | [], _, s => .ok s
-  | t :: ts, k, s => match applyTok n s t with
-    | some s' => replay n ts (k + 1) s'
+  | t :: ts, k, s => match applyTok ns n s t with
+    | some s' => replay ns n ts (k + 1) s'
     | none => .error s!"bad@{k}:{t}"
 
 def handle (args : List String) : Option String :=
@@ -129,7 +159,11 @@ def handle (args : List String) : Option String :=
   | ["muc", addrs, trace] => do
     let l ← mapM? String.toNat? (splitList addrs)
     let addr := fun c => match l[c]? with | some a => a | none => 100000 + c
-    match replay l.length (splitList trace) 0 (init addr) with
+    let toks := splitList trace
+    let (ns, toks) := match toks with
+      | t :: ts => (match cfgNs t with | some ns => (ns, ts) | none => (nsClient, toks))
+      | [] => (nsClient, toks)
+    match replay ns l.length toks 0 (init addr) with
     | .ok s => pure s!"joined={bits l.length s} upres={s.upres} inv={s.invites}"
     | .error e => pure e
   | _ => none
